@@ -5,7 +5,7 @@ cd "$(dirname "$0")"
 export GOFLAGS=-mod=mod GOPROXY=off GOSUMDB=off GOTOOLCHAIN=local CGO_ENABLED=1
 mkdir -p .build facts/actual evidence
 MODFILE=$(python3 -c "import checklib; print(checklib.modfile('setup'))")
-(cd harness && go build -modfile=$MODFILE -o ../.build/extract ./cmd/extract && ../.build/extract -repo /repo -lean ../lean/WmModel/Gen -facts ../facts/actual)
+(cd harness && go build -modfile=$MODFILE -o ../.build/extract ./cmd/extract && (../.build/extract -repo /repo -lean ../lean/WmModel/Gen -facts ../facts/actual || echo "WARNING: an extractor reported an error; the check of that property will report it"))
 (cd lean && lake build) || echo "WARNING: lake build of the whole library failed; each check builds its own targets and will report"
 # warm the Go build cache (race-instrumented standard library included) so the first quick run is fast
 (cd harness && for d in cmd/*/; do n=$(basename $d); [ "$n" = extract ] && continue; go build -modfile=$MODFILE -tags verif -race -o ../.build/warm_$n ./cmd/$n || true; rm -f ../.build/warm_$n; done)
